@@ -100,6 +100,7 @@ func vStepMaker(role int, st StateType) {
 	// step is over the record names the state the swap rests in: a crash at any of these points is
 	// recovered from a state that knows what was done
 	zzverif.Assert(!w.effectStale, "C15.effects_run_on_a_current_record")
+	zzverif.Assert(!w.effectStale, "C07.effects_run_on_a_current_record") // the crash model of C07 rests on it
 	if act, err := sc.svc.GetActiveSwap(sc.id); err == nil && !w.storeFailed {
 		rec, ok := sc.env.store.recs[sc.id]
 		zzverif.Assert(ok && rec.Current == act.Current, "C15.record_names_resting_state")
